@@ -88,13 +88,20 @@ var (
 type epoch struct {
 	name string
 	base time.Time
+	unit time.Duration // one model instant (0: an hour)
 }
 
-func (e epoch) tick(k int) time.Time { return e.base.Add(time.Duration(k) * time.Hour) }
+func (e epoch) tick(k int) time.Time {
+	u := e.unit
+	if u == 0 {
+		u = time.Hour
+	}
+	return e.base.Add(time.Duration(k) * u)
+}
 
 var (
-	past   = epoch{"past", time.Date(1995, 6, 1, 0, 0, 0, 0, time.UTC)}
-	future = epoch{"future", time.Date(2120, 1, 1, 0, 0, 0, 0, time.UTC)}
+	past   = epoch{name: "past", base: time.Date(1995, 6, 1, 0, 0, 0, 0, time.UTC)}
+	future = epoch{name: "future", base: time.Date(2120, 1, 1, 0, 0, 0, 0, time.UTC)}
 )
 
 type world struct {
@@ -426,7 +433,27 @@ func (r *runner) instance(c Case, k int, w *world) (*Inst, bool) {
 	if ok {
 		return in, in != nil
 	}
-	cfg := InstCfg{RootsPEM: w.roots[c.T], Start: bound(w.ep, o.Start), Limit: bound(w.ep, o.Limit), RejectExpired: o.RejExp, RejectUnexpired: o.RejUnexp,
+	cfg := instCfg(w, c.T, o)
+	var err error
+	guard(r.rep, "NewInstance", map[string]any{"options": o}, func() { in, err = NewInstance(r.dir, cfg) })
+	if err != nil {
+		r.rep.Violate("instance:config-refused:"+optLabel(o), fmt.Sprintf("the front end refuses the configuration %+v: %v", o, err), map[string]any{"options": o})
+		in = nil
+	}
+	r.mu.Lock()
+	if prev, ok := r.insts[key]; ok {
+		in = prev
+	} else {
+		r.insts[key] = in
+	}
+	r.mu.Unlock()
+	return in, in != nil
+}
+
+// instCfg is the configuration of a log that trusts the pool T and has the admission options o, as an operator
+// writes it.
+func instCfg(w *world, T string, o OptRow) InstCfg {
+	cfg := InstCfg{RootsPEM: w.roots[T], Start: bound(w.ep, o.Start), Limit: bound(w.ep, o.Limit), RejectExpired: o.RejExp, RejectUnexpired: o.RejUnexp,
 		AcceptOnlyCA: o.OnlyCA}
 	es := append([]string{}, o.EKUs...)
 	sort.Strings(es)
@@ -442,20 +469,7 @@ func (r *runner) instance(c Case, k int, w *world) (*Inst, bool) {
 	for _, x := range o.RejExts {
 		cfg.RejectExts = append(cfg.RejectExts, extOID[x].String())
 	}
-	var err error
-	guard(r.rep, "NewInstance", map[string]any{"options": o}, func() { in, err = NewInstance(r.dir, cfg) })
-	if err != nil {
-		r.rep.Violate("instance:config-refused:"+optLabel(o), fmt.Sprintf("the front end refuses the configuration %+v: %v", o, err), map[string]any{"options": o})
-		in = nil
-	}
-	r.mu.Lock()
-	if prev, ok := r.insts[key]; ok {
-		in = prev
-	} else {
-		r.insts[key] = in
-	}
-	r.mu.Unlock()
-	return in, in != nil
+	return cfg
 }
 
 // viaHTTP: both endpoints of a configured instance
@@ -612,31 +626,33 @@ func (r *runner) kind(c Case, w *world) {
 	}
 }
 
-func TestReplay(t *testing.T) {
-	rep := vh.NewReport("c02-replay", "every (chain, trusted pool) state of MCChainAdmission.tla x option combinations: ctfe.ValidateChain accepts "+
-		"exactly when ValidateOK and returns a path in Paths; IsPrecertificate = Kind; add-chain / add-pre-chain on a configured instance "+
-		"answer 200 exactly when Admit (else 400) and queue a leaf carrying a path in Paths")
-	defer func() {
-		if err := rep.Write(); err != nil {
-			t.Fatal(err)
-		}
-	}()
+// loadModel reads the tables (VERIF_TABLES) and the cases (VERIF_CASES, may be absent) of the model.
+func loadModel() (Tables, []Case, error) {
 	var tab Tables
 	b, err := os.ReadFile(os.Getenv("VERIF_TABLES"))
 	if err != nil {
-		t.Fatal(err)
+		return tab, nil, err
 	}
 	if err := json.Unmarshal(b, &tab); err != nil {
-		t.Fatal(err)
+		return tab, nil, err
 	}
-	cases, err := vh.LoadNDJSON[Case](os.Getenv("VERIF_CASES"))
-	if err != nil {
-		t.Fatal(err)
+	var cases []Case
+	if p := os.Getenv("VERIF_CASES"); p != "" {
+		if cases, err = vh.LoadNDJSON[Case](p); err != nil {
+			return tab, nil, err
+		}
+		if len(cases) == 0 {
+			return tab, nil, fmt.Errorf("no cases")
+		}
 	}
-	if len(cases) == 0 || len(tab.Opts) == 0 || len(tab.Certs) == 0 {
-		t.Fatal("no cases / tables")
+	if len(tab.Opts) == 0 || len(tab.Certs) == 0 {
+		return tab, nil, fmt.Errorf("no tables")
 	}
-	// keys: one per key token of the model, algorithms mixed by seed
+	return tab, cases, nil
+}
+
+// makeKeys: one key per key token of the model, algorithms mixed by seed.
+func makeKeys(tab *Tables) (map[string]crypto.Signer, map[string]string) {
 	rnd := vh.Rand(2)
 	types := []string{"p256", "p384", "rsa2048", "ed25519", "p256"}
 	keys := map[string]crypto.Signer{}
@@ -671,6 +687,26 @@ func TestReplay(t *testing.T) {
 		keys[tok] = pki.NewKey(kt)
 		keyTypes[tok] = kt
 	}
+	return keys, keyTypes
+}
+
+func TestReplay(t *testing.T) {
+	rep := vh.NewReport("c02-replay", "every (chain, trusted pool) state of MCChainAdmission.tla x option combinations: ctfe.ValidateChain accepts "+
+		"exactly when ValidateOK and returns a path in Paths; IsPrecertificate = Kind; add-chain / add-pre-chain on a configured instance "+
+		"answer 200 exactly when Admit (else 400) and queue a leaf carrying a path in Paths")
+	defer func() {
+		if err := rep.Write(); err != nil {
+			t.Fatal(err)
+		}
+	}()
+	tab, cases, err := loadModel()
+	if err != nil {
+		t.Fatal(err)
+	}
+	if len(cases) == 0 {
+		t.Fatal("no cases")
+	}
+	keys, keyTypes := makeKeys(&tab)
 	r := &runner{tab: &tab, worlds: map[string]*world{}, rep: rep, dir: t.TempDir(), insts: map[string]*Inst{}, cnt: map[string]int{}}
 	for _, ep := range []epoch{past, future} {
 		w, err := newWorld(ep, &tab, keys)
